@@ -5,6 +5,10 @@ Case (integers, <str> = len bytes), mirrored by coq/C13/Model.v run_case and har
   kind 0 flag / 1 implicit / 2 required;  posmode 0 none / 1 always <posname> / 2 reject / 3 <posname> for digit tokens
   mode 0 parseCommandLine, 1 parseCommandArray, 2 parseCommandString, 3 parseCfgFile;  payload: ntoks <tok>* | <bytes>
 INTENT (ignored by model and harness, read by the oracle):  has class npairs (id <value>)* nrem <tok>*
+REFUSED (optional trailer behind the intent; ignored by the model, executed by the harness):  nref (pos npiece (<name> alias kind neg)^npiece)*
+  = adds the context must refuse with DuplicateOption (caught, the caller carries on): piece j is handed to OptionContext::add after `pos` of
+  the case's options were accepted, its first option clashes with an accepted one (long name / alias / both).  Nothing of a refused piece is an
+  option: its long names are ordinary unknown names for every later parse (the option ids of the intent count the case's options only).
 The generator starts from an INTENDED list of items (option occurrence / positional / unknown token / end marker), writes
 each item in a randomly chosen supported spelling whose side conditions it evaluates by brute force over the option list
 (python reference below, independent of the Coq model), and records the intended pairs / remaining tokens / error class in
@@ -80,10 +84,24 @@ def decode(c):
             t, p = _str(c, p)
             rem.append(t)
         d['intent'] = (cls, pairs, rem)
+    elif p < len(c):
+        p += 1
+    d['refused'] = []
+    if p < len(c):
+        nref = c[p]; p += 1
+        for _ in range(nref):
+            pos, npc = c[p], c[p + 1]
+            p += 2
+            piece = []
+            for _ in range(npc):
+                nm, p = _str(c, p)
+                piece.append({'name': nm, 'alias': c[p], 'kind': c[p + 1], 'neg': c[p + 2], 'extra': []})
+                p += 3
+            d['refused'].append((pos, piece))
     return d
 
 
-def encode(opts, aliases, allow, flags, posmode, posname, mode, payload, intent):
+def encode(opts, aliases, allow, flags, posmode, posname, mode, payload, intent, refused=None):
     e = [len(opts)]
     for o in opts:
         e += _estr(o['name']) + [o['alias'], o['kind'], o['neg']]
@@ -107,6 +125,12 @@ def encode(opts, aliases, allow, flags, posmode, posname, mode, payload, intent)
         e += [len(rem)]
         for t in rem:
             e += _estr(t)
+    if refused:
+        e += [len(refused)]
+        for pos, piece in refused:
+            e += [pos, len(piece)]
+            for o in piece:
+                e += _estr(o['name']) + [o['alias'], o['kind'], o['neg']]
     return e
 
 
@@ -117,7 +141,9 @@ def describe(c):
         return 'undecodable case (%r)' % (ex,)
     os_ = ', '.join('%s%s:%s%s' % (_s(o['name']), (',-' + chr(o['alias'])) if o['alias'] else '', 'FIR'[o['kind']], '!' if o['neg'] else '') for o in d['opts'])
     al = ''.join(' alias(%s->#%d)' % (_s(n), i) for n, i in d['aliases'])
-    head = 'options[%s]%s allowUnreg=%d flags=%d pos=%d(%s) ' % (os_, al, d['allow'], d['flags'], d['posmode'], _s(d['posname']))
+    rf = ''.join(' refused-add-after-%d[%s]' % (pos, ', '.join('%s%s' % (_s(o['name']), (',-' + chr(o['alias'])) if o['alias'] else '') for o in pc))
+                 for pos, pc in d.get('refused', []))
+    head = 'options[%s]%s%s allowUnreg=%d flags=%d pos=%d(%s) ' % (os_, al, rf, d['allow'], d['flags'], d['posmode'], _s(d['posname']))
     if d['mode'] in (0, 1):
         body = ('parseCommandLine ' if d['mode'] == 0 else 'parseCommandArray ') + ' '.join("'%s'" % _s(t) for t in d['toks'])
     elif d['mode'] == 2:
@@ -152,7 +178,16 @@ def by_alias(opts, ch):
 
 
 # ------------------------------------------------------------------------------------------------ oracle
-ERRNAME = {1: 'unknown-option', 2: 'ambiguous-option', 3: 'missing-value', 4: 'extra-value', 5: 'invalid-format', 8: 'context-refused', 9: 'other-exception'}
+ERRNAME = {1: 'unknown-option', 2: 'ambiguous-option', 3: 'missing-value', 4: 'extra-value', 5: 'invalid-format', 7: 'refused-add-accepted', 8: 'context-refused', 9: 'other-exception'}
+
+
+def must_refuse(opts, pos, piece):
+    """reference: the first option of the piece clashes (long name or alias) with one of the first `pos` options"""
+    if not piece:
+        return False
+    before = opts[:min(pos, len(opts))]
+    f = piece[0]
+    return any(f['name'] == o['name'] or (f['alias'] and f['alias'] == o['alias']) for o in before)
 
 
 def oracle(c, obs):
@@ -161,11 +196,17 @@ def oracle(c, obs):
     except Exception:  # noqa
         return []
     it = d['intent']
+    if d['refused'] and not all(must_refuse(d['opts'], pos, pc) for pos, pc in d['refused']):
+        return []          # not a case of this generator (an add declared as refused does not clash): nothing is demanded
+    if obs and obs[0] == 7:
+        return ['add-with-clashing-name-or-alias-was-accepted-or-changed-the-option-list']
     if it is None:
         return []
     cls, pairs, rem = it
     if not obs:
         return ['empty-observation']
+    if d['refused'] and obs[0] == 8:
+        return ['context-refused-a-declared-option-after-a-refused-add']
     if cls != 0:
         if obs[0] == 0:
             return ['intended-error-%s-but-parse-succeeded' % ERRNAME.get(cls, cls)]
@@ -350,12 +391,104 @@ def pos_target(opts, posmode, posname, tok):
     return resolve(opts, B('Positional Option'))
 
 
-def unknown_token(rnd, opts):
-    """a token that names no option"""
+FRESH_POOL = ['verbose2', 'zeta', 'omega', 'version', 'alphabet', 'helper', 'numb', 'out', 'nob2', 'gam', 'betamax', 'no-zeta', 'q', 'level', 'no-help']
+FRESH_ALIASES = [35, 64, 113, 119, 117, 37]
+
+
+def gen_refused(rnd, opts):
+    """Adds the context must refuse, to be tried while the option set is being put together.
+    -> {'pieces': [(pos, [opt...])], 'names': refused-only long names, 'aliases': refused-only alias characters}"""
+    n = len(opts)
+
+    def taken(nm):
+        return any(nm in names_of(o) for o in opts)
+
+    def fresh_name(pos):
+        for _ in range(30):
+            q = rnd.random()
+            if q < 0.35:
+                nm = B(rnd.choice(FRESH_POOL))
+            elif q < 0.6:
+                nm = list(rnd.choice(opts)['name']) + B(rnd.choice(['x', '2', '-more', 'a']))      # a real name is a prefix of it
+            elif q < 0.8:
+                b = rnd.choice(opts)['name']
+                nm = list(b[:rnd.randint(1, len(b))]) + B(rnd.choice(['zq', 'q']))                 # shares a prefix with a real name
+            elif q < 0.9:
+                b = rnd.choice(opts)['name']
+                nm = list(b[:rnd.randint(1, len(b))])                                              # a prefix of a real name
+            else:
+                later = [o for o in opts[pos:]]
+                if not later:
+                    continue
+                return list(rnd.choice(later)['name'])                                             # registered for real LATER
+            if nm and not taken(nm) and EQ not in nm and nm[0] != DASH:
+                return nm
+        return None
+    pieces, names, achars = [], [], []
+    used_alias = [o['alias'] for o in opts if o['alias']]
+    for _ in range(rnd.choice([1, 1, 2, 3])):
+        pos = rnd.randint(1, max(1, n - 1)) if rnd.random() < 0.8 else n
+        before = opts[:pos]
+        with_alias = [o for o in before if o['alias']]
+        kind = rnd.choice(['alias', 'alias', 'alias', 'name', 'both'])
+        if kind != 'name' and not with_alias:
+            kind = 'name'
+        first = {'kind': rnd.choice([FLAG, IMPLICIT, REQUIRED]), 'neg': rnd.choice([0, 0, 1]), 'extra': []}
+        if kind == 'alias':
+            nm = fresh_name(pos)
+            if nm is None:
+                continue
+            first.update(name=nm, alias=rnd.choice(with_alias)['alias'])
+        elif kind == 'name':
+            fa = [a for a in FRESH_ALIASES if a not in used_alias]
+            first.update(name=list(rnd.choice(before)['name']), alias=rnd.choice(fa) if (fa and rnd.random() < 0.6) else 0)
+        else:
+            first.update(name=list(rnd.choice(before)['name']), alias=rnd.choice(with_alias)['alias'])
+        piece = [first]
+        for _ in range(rnd.choice([0, 0, 0, 1, 2])):
+            nm = fresh_name(pos)
+            if nm is not None and all(nm != o['name'] for o in piece):
+                piece.append({'name': nm, 'alias': 0, 'kind': rnd.choice([FLAG, REQUIRED]), 'neg': 0, 'extra': []})
+        pieces.append((pos, piece))
+        for o in piece:
+            if not taken(o['name']) and o['name'] not in names:
+                names.append(o['name'])
+            if o['alias'] and o['alias'] not in used_alias and o['alias'] not in achars:
+                achars.append(o['alias'])
+    if not pieces:
+        return None
+    return {'pieces': pieces, 'names': names, 'aliases': achars}
+
+
+def refused_key(rnd, ref):
+    """a way to mention a refused-only long name: in full, by a prefix, negated"""
+    if not ref or not ref['names']:
+        return None
+    nm = list(rnd.choice(ref['names']))
+    q = rnd.random()
+    if q < 0.3 and len(nm) > 1:
+        nm = nm[:rnd.randint(max(1, len(nm) - 3), len(nm) - 1)]
+    elif q < 0.45:
+        nm = B('no-') + nm
+    return nm
+
+
+def unknown_token(rnd, opts, ref=None):
+    """a token that names no option (ref: prefer the names / alias characters of adds the context refused)"""
     for _ in range(20):
         q = rnd.random()
-        if q < 0.5:
+        if ref and rnd.random() < 0.8:
+            if ref['aliases'] and rnd.random() < 0.2:
+                ch = rnd.choice(ref['aliases'])
+                if by_alias(opts, ch) is None:
+                    return [DASH, ch] + rvalue(rnd)[:3]
+            nm = refused_key(rnd, ref)
+            if nm is None:
+                nm = B('zeta')
+            q = 0.0
+        elif q < 0.5:
             nm = B(rnd.choice(['zeta', 'omega', 'q', 'no-zeta', 'no-alpha', 'no-q', 'alphabet', 'w-']))
+        if q < 0.5:
             if resolve(opts, nm)[0] != 'none':
                 continue
             if nm[:3] == B('no-'):
@@ -370,8 +503,9 @@ def unknown_token(rnd, opts):
     return None
 
 
-def gen_argv_case(rnd, kind):
+def gen_argv_case(rnd, kind, refused=False):
     opts, aliases = gen_options(rnd)
+    ref = gen_refused(rnd, opts) if refused else None
     allow = 1 if kind in ('unknown-left', 'mixed') or rnd.random() < 0.3 else 0
     if kind in ('error-unknown', 'error-pos'):
         allow = 0
@@ -386,7 +520,7 @@ def gen_argv_case(rnd, kind):
     for it in range(nitems):
         if it == err_at:
             if kind == 'error-unknown':
-                t = unknown_token(rnd, opts)
+                t = unknown_token(rnd, opts, ref)
                 if t is None:
                     continue
                 toks.append(t)
@@ -424,6 +558,8 @@ def gen_argv_case(rnd, kind):
                 break
             continue
         q = rnd.random()
+        if ref and allow and rnd.random() < 0.3:
+            q = 0.95            # mention a name / alias of a refused add: it must stay in the remaining arguments
         if q < 0.62:
             i = rnd.randrange(len(opts))
             s = spell_occ(rnd, opts, i, afv)
@@ -441,7 +577,7 @@ def gen_argv_case(rnd, kind):
             elif r[0] == 'none' and allow:
                 toks.append(t); rem.append(t)
         elif allow:
-            t = unknown_token(rnd, opts)
+            t = unknown_token(rnd, opts, ref)
             if t is not None:
                 toks.append(t); rem.append(t)
     if kind == 'error-missing':
@@ -463,7 +599,7 @@ def gen_argv_case(rnd, kind):
     if kind.startswith('error') and not err:
         return None
     intent = (err, [] if err else pairs, [] if err else rem)
-    return opts, aliases, allow, flags, posmode, posname, toks, intent
+    return opts, aliases, allow, flags, posmode, posname, toks, intent, (ref['pieces'] if ref else None)
 
 
 # quoting for parseCommandString
@@ -508,8 +644,18 @@ def render_string(rnd, toks):
     return out
 
 
-def gen_cfg_case(rnd, kind):
+def gen_cfg_case(rnd, kind, refused=False):
     opts, aliases = gen_options(rnd)
+    ref = gen_refused(rnd, opts) if refused else None
+
+    def unknown_key(pool):
+        if ref and ref['names'] and rnd.random() < 0.8:
+            nm = list(rnd.choice(ref['names']))
+            if rnd.random() < 0.3 and len(nm) > 1:
+                nm = nm[:rnd.randint(max(1, len(nm) - 3), len(nm) - 1)]
+            if nm[0] != 35:
+                return nm
+        return B(rnd.choice(pool))
     allow = 1 if rnd.random() < 0.4 else 0
     text, pairs = [], []
     err = 0
@@ -537,15 +683,17 @@ def gen_cfg_case(rnd, kind):
                     break
             if kind == 'cfg-error-unknown':
                 allow = 0
-                nm = B(rnd.choice(['zeta', 'omega', 'nosuch']))
+                nm = unknown_key(['zeta', 'omega', 'nosuch'])
                 if resolve(opts, nm)[0] != 'none':
                     continue
                 text += blanks() + nm + blanks() + [EQ] + blanks() + B('1') + [10]
                 err = 1
                 break
         q = rnd.random()
+        if ref and allow and rnd.random() < 0.3:
+            q = 0.0
         if q < 0.15 and allow:
-            nm = B(rnd.choice(['zeta', 'omega']))
+            nm = unknown_key(['zeta', 'omega'])
             if resolve(opts, nm)[0] == 'none':
                 text += blanks() + nm + blanks() + [EQ] + blanks() + B('1') + blanks() + [10]
             continue
@@ -573,16 +721,23 @@ def gen_cfg_case(rnd, kind):
     if kind.startswith('cfg-error') and not err:
         return None
     intent = (err, [] if err else pairs, [])
-    return opts, aliases, allow, 0, 0, [], text, intent
+    return opts, aliases, allow, 0, 0, [], text, intent, (ref['pieces'] if ref else None)
 
 
 SOUP = ['--', '-', '--alpha', '--beta=', '--alpha=3', '-fx', '-x', '--no-beta', '--no-alpha=1', '--no-', '--=', '--=v', '-', '', 'file', '--no-no-beta', '-ab', '-a', 'v', '--n', '--nu=1', '--he', '-0', '--verbose=no', '--no-verbose', '-v1']
 
 
-def gen_soup(rnd):
+def gen_soup(rnd, refused=False):
     opts, aliases = gen_options(rnd)
     toks = [B(rnd.choice(SOUP)) if rnd.random() < 0.8 else rvalue(rnd) for _ in range(rnd.randint(1, 6))]
-    return opts, aliases, rnd.choice([0, 1]), rnd.choice([0, 1]), rnd.choice([0, 1, 2, 3]), list(rnd.choice(opts)['name']), toks, None
+    r = (opts, aliases, rnd.choice([0, 1]), rnd.choice([0, 1]), rnd.choice([0, 1, 2, 3]), list(rnd.choice(opts)['name']), toks, None)
+    ref = gen_refused(rnd, opts) if refused else None
+    if ref:
+        for _ in range(rnd.randint(1, 2)):
+            k = refused_key(rnd, ref)
+            if k is not None:
+                toks.insert(rnd.randrange(len(toks) + 1), [DASH, DASH] + k + ([EQ] + rvalue(rnd, True) if rnd.random() < 0.5 else []))
+    return r + ((ref['pieces'] if ref else None),)
 
 
 def fixed_cases():
@@ -598,6 +753,23 @@ def fixed_cases():
     # alias name sharing a prefix with its own option (C14 finding, repaired): --nu=3
     o2 = [{'name': B('number'), 'alias': 0, 'kind': REQUIRED, 'neg': 0, 'extra': [B('num')]}, {'name': B('other'), 'alias': 0, 'kind': FLAG, 'neg': 0, 'extra': []}]
     out.append((encode(o2, [(B('num'), 0)], 0, 0, 0, [], 2, B('--nu=3 --other'), (0, [(0, B('3')), (1, [])], [])), {'kind': 'regress-alias-name-prefix'}))
+    # seeded C13-r6: a context put together in steps; the add of `verbose,-h` is refused (alias taken by `help`), the caller carries on and adds
+    # `output`: the name `verbose` (full, prefix, --no-verbose, config key) is unknown - it must not parse as the option that got the next slot
+    o3 = [{'name': B('help'), 'alias': 104, 'kind': FLAG, 'neg': 0, 'extra': []}, {'name': B('number'), 'alias': 110, 'kind': REQUIRED, 'neg': 0, 'extra': []},
+          {'name': B('output'), 'alias': 111, 'kind': REQUIRED, 'neg': 1, 'extra': []}]
+    rf = [(2, [{'name': B('verbose'), 'alias': 104, 'kind': FLAG, 'neg': 0, 'extra': []}])]
+    k = {'kind': 'regress-refused-add-name-unknown'}
+    out.append((encode(o3, [], 0, 0, 0, [], 0, [B('--number=4'), B('--verbose=3')], (1, [], []), rf), k))
+    out.append((encode(o3, [], 1, 0, 0, [], 0, [B('--number=4'), B('--verbose=3'), B('-o'), B('x.lp')], (0, [(1, B('4')), (2, B('x.lp'))], [B('--verbose=3')]), rf), k))
+    out.append((encode(o3, [], 1, 0, 0, [], 0, [B('--no-verbose'), B('--verb'), B('-n'), B('1')], (0, [(1, B('1'))], [B('--no-verbose'), B('--verb')]), rf), k))
+    out.append((encode(o3, [], 0, 0, 0, [], 2, B('--number=4 --verb 3'), (1, [], []), rf), k))
+    out.append((encode(o3, [], 0, 0, 0, [], 3, B('# demo\nnumber = 4\nverbose = 3\n'), (1, [], []), rf), k))
+    out.append((encode(o3, [], 0, 0, 0, [], 2, B('-h --out=y -n7'), (0, [(0, []), (2, B('y')), (1, B('7'))], []), rf), k))
+    # refused because the long name is taken (with an unused alias `-#`), refused at the very end (no later option), a piece with options behind the clash
+    rf2 = [(1, [{'name': B('help'), 'alias': 35, 'kind': REQUIRED, 'neg': 0, 'extra': []}, {'name': B('zeta'), 'alias': 0, 'kind': FLAG, 'neg': 0, 'extra': []}]),
+           (3, [{'name': B('verbose'), 'alias': 110, 'kind': REQUIRED, 'neg': 0, 'extra': []}])]
+    out.append((encode(o3, [], 1, 0, 0, [], 0, [B('-#'), B('--zeta'), B('--verbose=1'), B('-n'), B('2')], (0, [(1, B('2'))], [B('-#'), B('--zeta'), B('--verbose=1')]), rf2), k))
+    out.append((encode(o3, [], 0, 0, 0, [], 1, [B('-n'), B('2'), B('--verbose=1')], (1, [], []), rf2), k))
     return out
 
 
@@ -613,28 +785,36 @@ def gen(seed, tier):
     while len(out) < total and guard < total * 20:
         guard += 1
         kind = rnd.choice(KINDS)
+        # the same streams over a context that was put together with REFUSED adds in between (DuplicateOption caught, more options added
+        # afterwards); unknown tokens / keys then prefer the names of the refused options (full, prefix, --no-<name>, alias character)
+        refused = rnd.random() < 0.35
+        if refused and kind in ('valid', 'end-marker') and rnd.random() < 0.6:
+            kind = rnd.choice(['unknown-left', 'error-unknown'])
+        if refused and kind == 'cfg' and rnd.random() < 0.4:
+            kind = 'cfg-error-unknown'
+        tag = '-refused-adds' if refused else ''
         if kind == 'soup':
-            opts, aliases, allow, flags, pm, pn, toks, intent = gen_soup(rnd)
+            opts, aliases, allow, flags, pm, pn, toks, intent, pieces = gen_soup(rnd, refused)
             mode = rnd.choice([0, 1, 2])
             payload = toks if mode != 2 else render_string(rnd, toks)
-            out.append((encode(opts, aliases, allow, flags, pm, pn, mode, payload, None), {'kind': 'soup'}))
+            out.append((encode(opts, aliases, allow, flags, pm, pn, mode, payload, None, pieces), {'kind': 'soup' + tag}))
             continue
         if kind.startswith('cfg'):
-            r = gen_cfg_case(rnd, kind)
+            r = gen_cfg_case(rnd, kind, refused)
             if r is None:
                 continue
-            opts, aliases, allow, flags, pm, pn, text, intent = r
-            out.append((encode(opts, aliases, allow, flags, pm, pn, 3, text, intent), {'kind': kind}))
+            opts, aliases, allow, flags, pm, pn, text, intent, pieces = r
+            out.append((encode(opts, aliases, allow, flags, pm, pn, 3, text, intent, pieces), {'kind': kind + tag}))
             continue
-        r = gen_argv_case(rnd, 'valid' if kind == 'string' else kind)
+        r = gen_argv_case(rnd, 'valid' if kind == 'string' else kind, refused)
         if r is None:
             continue
-        opts, aliases, allow, flags, pm, pn, toks, intent = r
+        opts, aliases, allow, flags, pm, pn, toks, intent, pieces = r
         if kind == 'string' or rnd.random() < 0.15:
-            out.append((encode(opts, aliases, allow, flags, pm, pn, 2, render_string(rnd, toks), intent), {'kind': 'string-' + kind if kind != 'string' else 'string'}))
+            out.append((encode(opts, aliases, allow, flags, pm, pn, 2, render_string(rnd, toks), intent, pieces), {'kind': ('string-' + kind if kind != 'string' else 'string') + tag}))
         else:
             mode = rnd.choice([0, 0, 1])
-            out.append((encode(opts, aliases, allow, flags, pm, pn, mode, toks, intent), {'kind': kind}))
+            out.append((encode(opts, aliases, allow, flags, pm, pn, mode, toks, intent, pieces), {'kind': kind + tag}))
     return out
 
 
@@ -644,7 +824,11 @@ RULE = ('cases = (generated option set: 2-9 long names with shared prefixes and 
         'unique prefixes down to the shortest, --no-n, -a v, -av, -a, grouped flags with an optional valued alias, positional tokens, unknown tokens, "--" + rest) '
         'run through parseCommandLine (argv rewrite observed) / parseCommandArray / parseCommandString (random bare, single and double quoting with backslash escapes) / '
         'parseCfgFile (blanks, comments, blank lines, continuation lines); error streams: unknown option, ambiguous prefix, missing value, value for a flag, unmapped '
-        'positional, malformed config line; plus a token soup stream without intent (correspondence only). Values: empty, blank-, quote-, backslash-, "="- and '
+        'positional, malformed config line; plus a token soup stream without intent (correspondence only). 35 % of all streams run over a context that was put '
+        'together in steps with 1-3 adds the context must REFUSE in between (DuplicateOption caught, the caller carries on and adds the remaining options; clash by '
+        'long name (with or without an unused alias), by alias with a FRESH long name, by both; 0-2 further options behind the clashing one; fresh names from a pool, '
+        'extending / sharing a prefix with / being a prefix of a real name, or registered for real later): the refused-only names are mentioned in full, by prefix, as '
+        '--no-<name>, as config key and by their alias character and must be unknown (error, or left in the remaining arguments with argc/argv checked). Values: empty, blank-, quote-, backslash-, "="- and '
         '"-"-containing. non-trivial = at least two options and two tokens / four config bytes; distinct = distinct case tuples')
 TRUSTED_BASE = ['V.C14.Model lookup (proved in C14) and its trusted base (std::map modelled)',
                 'std::getline, std::isspace (C locale), std::string find/erase modelled',
@@ -657,7 +841,8 @@ ASSUMPTIONS = ['tokens are NUL-free byte strings; option names as in C14 (bytes 
                'config files: names without "=" and not starting with "#"; values without leading/trailing blanks and without newline; continuation lines non-empty, without "=" and not starting with "#"']
 LEVEL_TEXT = ('Machine-checked proof (Coq) about an executable model of the three parsers tied to the code by differential correspondence: every item list written in any '
               'mixture of the supported spellings parses to exactly the intended pairs and remaining tokens; tokenising any rendered command string gives back the tokens; '
-              'config-file sections give back their pairs; the error cases raise the documented error class.')
+              'config-file sections give back their pairs; the error cases raise the documented error class. The correspondence also builds the context with refused '
+              'adds in between (for the model a refused option is not an option: its names are ordinary unknown names).')
 LEVEL_NOTE = 'Trusted: Coq kernel, extraction+driver (vm_compute cross-check), harness, translator; lookup through the C14 model.'
 TECHNIQUE = 'Coq proof about an executable model + differential correspondence with the implementation'
 DESIGN_REF = 'DESIGN.md section 5, C13'
